@@ -32,6 +32,8 @@ def _job(job):
 def run_diff_cases(res, props, report_prop, known_kinds, quick=(32, 60), thorough=(128, 200), max_edits=3, cli=0):
     nseeds, npairs = quick if res.tier == 'quick' else thorough
     jobs = [(res.seed * 7919 + s, npairs, props, max_edits, cli) for s in range(nseeds)]
+    # the systematic sweep (every pool cell x every edit operation), negative seeds select it in nbspace.pairs
+    jobs += [(-(res.seed * 13 + s + 1), 0, props, max_edits, 0) for s in range(2 if res.tier == 'quick' else 8)]
     seen = set()
     for n, fails, keys, sample in common.pmap(_job, jobs):
         res.evaluations += n
@@ -57,7 +59,8 @@ def run_diff_cases(res, props, report_prop, known_kinds, quick=(32, 60), thoroug
                           dict(where, replay_kind='call', module='checks.diffcommon', function='replay_case',
                                args=[where, sorted(props), report_prop], kind=kind, detail=detail))
     res.coverage.setdefault('rule', '')
-    res.coverage['rule'] += (' notebook pairs (A, B): A from the notebook grammar (bounded/nbspace.py), B = A after 0..%d random edits of 20 kinds, or an '
+    res.coverage['rule'] += (' systematic sweep: every cell of the pool (between two neighbours) x every edit operation aimed at it x minors 5/4;'
+                             ' notebook pairs (A, B): A from the notebook grammar (bounded/nbspace.py), B = A after 0..%d random edits of 20 kinds, or an '
                              'unrelated notebook of the same minor (15%%); non-trivial = A and B differ; distinct by canonical JSON.' % max_edits)
 
 
